@@ -24,15 +24,15 @@ func init() {
 
 // detAllowed: named constructs that are nondeterminism-prone but harmless, with the reason.
 var detAllowed = map[string]string{
-	"authenticator.checkForFloats/range vv":                   "existential search: the boolean result does not depend on the order; no state or event effect",
-	"dag.DAG.hasIncomingEdge/range adjacencyList":             "existential search: the boolean result does not depend on the order",
-	"incentiveskeeper.Keeper.GetRewardsEst/range denomSet":    "query path (gRPC estimate), never executed in a transaction or block hook; the result is a commutative sum of coins",
+	"authenticator.checkForFloats/range vv":                                                          "existential search: the boolean result does not depend on the order; no state or event effect",
+	"dag.DAG.hasIncomingEdge/range adjacencyList":                                                    "existential search: the boolean result does not depend on the order",
+	"incentiveskeeper.Keeper.GetRewardsEst/range denomSet":                                           "query path (gRPC estimate), never executed in a transaction or block hook; the result is a commutative sum of coins",
 	"lockupkeeper.Keeper.RebuildSuperfluidAccumulationStoresForDenom/range accumulationStoreEntries": "writes sum-tree stores under pairwise distinct prefixes (one per synthetic denom); no events, upgrade-time only",
-	"osmoutils.MergeCoinMaps/range poolIDToExpectedDistributionMapOne":                                   "fills a fresh map keyed by pool id; Coins.Add is a pure value operation",
-	"protorevkeeper.Keeper.UpdatePools/range baseDenomPools": "store writes to pairwise distinct (base denom, denom) keys; no events",
-	"protorevkeeper.Keeper.UpdatePools/range pools":          "store writes to pairwise distinct (base denom, denom) keys; no events",
-	"tokenfactorykeeper.NewKeeper/range maccPerms":           "keeper construction at process start: fills lookup maps only",
-	"mempool-1559.EipState.updateBaseFee/go statement":       "persists the node-local mempool fee state to a local file; not consensus state and not read back during block execution",
+	"osmoutils.MergeCoinMaps/range poolIDToExpectedDistributionMapOne":                               "fills a fresh map keyed by pool id; Coins.Add is a pure value operation",
+	"protorevkeeper.Keeper.UpdatePools/range baseDenomPools":                                         "store writes to pairwise distinct (base denom, denom) keys; no events",
+	"protorevkeeper.Keeper.UpdatePools/range pools":                                                  "store writes to pairwise distinct (base denom, denom) keys; no events",
+	"tokenfactorykeeper.NewKeeper/range maccPerms":                                                   "keeper construction at process start: fills lookup maps only",
+	"mempool-1559.EipState.updateBaseFee/go statement":                                               "persists the node-local mempool fee state to a local file; not consensus state and not read back during block execution",
 }
 
 // memAllowed: keeper in-memory writes that are acceptable, by function, with the reason.
@@ -127,6 +127,28 @@ func runC19(c *rules.Ctx) {
 		}
 		c.Record("X-mem", s.Func, role, "in-memory keeper state may be written only by wiring, by a rebuild from the store, or by a self-validating cache"+map[bool]string{true: " — " + why, false: ""}[ok], ok, orStr(map[bool]string{true: "accepted", false: "consensus-relevant in-memory state written during execution"}[ok], ""), rel(s.Pos))
 	}
+	// side conditions of the pool-module cache exemption: a hit costs exactly the gas of the read it replaces
+	const PM = "x/poolmanager.Keeper."
+	c.Let("CV", "assert:poolModuleCacheValue(sync.Map.Load(k.cachedPoolModules,poolId)#0)#0")
+	for _, fn := range []string{"GetPoolType", "GetPoolModule"} {
+		c.HasCall(PM+fn, "osmoutils.ChargeMockReadGas|poolmanager.Keeper.getPoolRouteRaw|osmoutils.TrackGasUsedInGet", nil, true, "every successful lookup either reads the route from the store or charges the recorded gas of that read (a node with a warm cache and one with a cold cache consume the same gas)", "gas")
+		c.CallArg(PM+fn, "osmoutils.ChargeMockReadGas", 1, "{CV}.gasFlat", "the gas charged on a hit is the recorded flat cost")
+		c.CallArg(PM+fn, "osmoutils.ChargeMockReadGas", 2, "{CV}.gasKey", "…the recorded key cost")
+		c.CallArg(PM+fn, "osmoutils.ChargeMockReadGas", 3, "{CV}.gasValue", "…and the recorded value cost")
+	}
+	c.Let("TRK", "osmoutils.TrackGasUsedInGet(sdk.Context.KVStore(ctx,k.storeKey),poolmanagertypes.FormatModuleRouteKey(poolId),_)")
+	c.StoreField(PM+"GetPoolModule", "gasFlat", "{TRK}#1", "the cache records the flat gas of the store read it replaces")
+	c.StoreField(PM+"GetPoolModule", "gasKey", "{TRK}#2", "…its key gas")
+	c.StoreField(PM+"GetPoolModule", "gasValue", "{TRK}#3", "…and its value gas")
+	c.OnlyWhen(PM+"GetPoolModule", "sync.Map.Store", "eq(sdk.Context.ExecMode(ctx),7)", "the cache is filled only while finalising a block")
+	c.HasCall(PM+"SetPoolRoute", "sync.Map.Delete", []string{"k.cachedPoolModules", "poolId"}, true, "rewriting a route invalidates its cache entry", "")
+	c.WhoMayCall("x/poolmanager/types.FormatModuleRouteKey", []string{"poolmanager.Keeper.getPoolRouteRaw", "poolmanager.Keeper.SetPoolRoute", "poolmanager.Keeper.GetPoolModule"}, "the route key is touched only by the cached reader, the raw reader and the invalidating writer")
+	// genesis rebuild of the lockup accumulation uses the same bucket keys as the running chain
+	c.MapKeys("x/lockup/keeper.Keeper.InitializeAllLocks", "elem(elem(locks).Coins).Denom | elem(locks).Duration | elem(has(elem(elem(locks).Coins).Denom))", 4, "the import rebuilds per-denom accumulation keyed by each lock's own duration")
+	c.MapKeys("x/lockup/keeper.Keeper.InitializeAllSyntheticLocks", "elem(syntheticLocks).SynthDenom | elem(syntheticLocks).Duration | elem(has(elem(syntheticLocks).SynthDenom))", 4, "the import rebuilds synthetic-denom accumulation keyed by the synthetic lock's duration (as create/delete/add/slash do)")
+	c.CallArg("x/lockup/keeper.Keeper.writeDurationValuesToAccumTree", "sumtree.Tree.Increase", 0, "lockupkeeper.Keeper.accumulationStore(k,ctx,denom)", "rebuilt totals are written to the denom's accumulation store")
+	c.CallArg("x/lockup/keeper.Keeper.writeDurationValuesToAccumTree", "sumtree.Tree.Increase", 1, "lockupkeeper.accumulationKey(elem(has(range(durationValueMap))))", "…under the key of the duration")
+	c.CallArg("x/lockup/keeper.Keeper.writeDurationValuesToAccumTree", "sumtree.Tree.Increase", 2, "lookup(durationValueMap, elem(has(range(durationValueMap))))", "…with that duration's total")
 	c.R.Extra["keeper_memory_writes"] = len(writes)
 }
 
@@ -136,7 +158,6 @@ func suffix(seen map[string]int, s analyses.Site) string {
 	}
 	return ""
 }
-
 
 // wiringOnly: every non-test caller of the function lives in app/ (keeper wiring at process start).
 func wiringOnly(c *rules.Ctx, fname string) bool {
